@@ -500,7 +500,9 @@ impl<'tcx> Cx<'tcx> {
                     // reference to static memory: decode by pointee type
                     let (prov, off) = p.into_raw_parts();
                     let aid = prov.alloc_id();
-                    if let TyKind::Ref(_, inner, _) = t.kind() {
+                    if let Some(GlobalAlloc::Static(sdid)) = self.tcx.try_get_global_alloc(aid) {
+                        o = o.ks("static", self.path(sdid));
+                    } else if let TyKind::Ref(_, inner, _) = t.kind() {
                         o = o.k("mem", self.mem_j(aid, off.bytes(), *inner, 6));
                     }
                 }
